@@ -144,6 +144,32 @@ func c08Random(c *Case) {
 	if c.Index%4 == 0 && !c.scalarCheckMany(e, []*xdoc.Node{ctx, d.Nodes[g.Intn(len(d.Nodes))], d.Nodes[g.Intn(len(d.Nodes))], ctx}) {
 		return // (one compiled expression at several context nodes)
 	}
+	if c.Index%4 == 1 {
+		// the arithmetic as a comparison operand inside a predicate: ONE instance of it is evaluated for every candidate
+		// of the step (a value remembered from the first candidate shows at the others)
+		lit := xref.Num{Lex: "1"}
+		if f, isNum := want.(float64); isNum && xgen.FiniteSmall(f) && f >= 0 {
+			lit = xref.Num{Lex: xref.NumToString(f)}
+		}
+		for _, pred := range []xref.Expr{xref.Bin{Op: g.Pick("=", "!=", "<", ">="), L: e, R: lit}, xref.Bin{Op: g.Pick("=", "<=", ">"), L: lit, R: e}} {
+			pe := xref.Path{Abs: true, Steps: []*xref.Step{xgen.DSlash(), {Axis: "child", Abbrev: "child", Test: xref.Test{Kind: g.Pick("*", "node")}, Preds: []xref.Expr{pred}}}}
+			if c.expensive(pe, d) {
+				continue
+			}
+			wantNS, okNS, _ := refNodeSet(pe, xref.NewCtx(d.Root))
+			if !okNS {
+				continue
+			}
+			pce := c.compile(xref.Render(pe), func() map[string]interface{} { return docDetail(d, d.Root) })
+			if pce == nil {
+				return
+			}
+			if _, good := c.checkSelectSet(pce, xref.Render(pe), d.Root, wantNS); !good {
+				return
+			}
+			c.Count("arithmetic-per-candidate")
+		}
+	}
 	if f, isNum := want.(float64); isNum && xgen.FiniteSmall(f) && g.Chance(0.5) {
 		if _, ok := c.scalarCheck(xref.Call{Name: "string", Args: []xref.Expr{e}}, ctx, "ABORT"); !ok {
 			return
